@@ -188,7 +188,7 @@ package fit
 //@ pred inv_io(d *decoder) := d.r != nil && d.crc != nil && dyncrc16.IsCrc16(d.crc) && (d.debug ==> d.opts.logger != nil)
 //@@ bytes delivered by the reader but not yet consumed are exactly the buffered ones
 //@ spec framepos(d *decoder) int := pos(d.r) - d.bytes.n - (d.bytes.j - d.bytes.i)
-//@@ content layer (clauses tagged {C02 C04 C12 C13}): the unread part of the buffer holds the stream bytes
+//@@ content layer (clauses tagged {C02 C04 C06 C12 C13}): the unread part of the buffer holds the stream bytes
 //@@ that follow the consumed ones; byte k of the frame is instream(d.r, framepos(d)+k)
 //@ pred inv_content(d *decoder) := forall k in d.bytes.i..d.bytes.j :: d.bytes.buf[k] == instream(d.r, pos(d.r)-(d.bytes.j-k))
 
@@ -245,7 +245,7 @@ package fit
 //@   ensures [counters] d.bytes.n == old(d.bytes.n) && d.bytes.limit == old(d.bytes.limit)
 //@   ensures [framepos] framepos(d) == old(framepos(d))
 //@   ensures [monotone] pos(d.r) >= old(pos(d.r))
-//@   ensures [content] {C02 C04 C12 C13} inv_content(d)
+//@   ensures [content] {C02 C04 C06 C12 C13} inv_content(d)
 //@   requires [crc] {C04} inv_crc(d)
 //@   ensures [crc] {C04} inv_crc(d)
 //@   usepost {C04} fold_stream(d.r, old(dyncrc16.GhostSum(d.crc)), d.bytes.buf[0:d.bytes.j], 0, d.bytes.j, old(pos(d.r)))
@@ -262,14 +262,14 @@ package fit
 //@   ensures [limit] d.bytes.limit == old(d.bytes.limit)
 //@   ensures [framepos] framepos(d) == old(framepos(d))
 //@   ensures [monotone] pos(d.r) >= old(pos(d.r))
-//@   requires [content] {C02 C04 C12 C13} inv_content(d)
+//@   requires [content] {C02 C04 C06 C12 C13} inv_content(d)
 //@   requires [crc] {C04} inv_crc(d)
-//@   ensures [content] {C02 C04 C12 C13} inv_content(d)
+//@   ensures [content] {C02 C04 C06 C12 C13} inv_content(d)
 //@   ensures [crc] {C04} inv_crc(d)
-//@   ensures [byte] {C02 C04 C12 C13} err == nil ==> b == instream(d.r, framepos(d)+old(d.bytes.n))
+//@   ensures [byte] {C02 C04 C06 C12 C13} err == nil ==> b == instream(d.r, framepos(d)+old(d.bytes.n))
 //@   assigns d.bytes.i, d.bytes.j, d.bytes.n, d.bytes.buf[..], pos(d.r), dyncrc16.GhostSum(d.crc)
 //@   loop 0 invariant [inv] inv_bytes(d) && inv_io(d) && d.bytes.n == old(d.bytes.n) && d.bytes.limit == old(d.bytes.limit) && framepos(d) == old(framepos(d)) && pos(d.r) >= old(pos(d.r))
-//@   loop 0 invariant [content] {C02 C04 C12 C13} inv_content(d)
+//@   loop 0 invariant [content] {C02 C04 C06 C12 C13} inv_content(d)
 //@   loop 0 invariant [crc] {C04} inv_crc(d)
 //@   loop 0 decreases ite(d.bytes.i == d.bytes.j, 1, 0)
 
@@ -283,13 +283,13 @@ package fit
 //@   ensures [limit] d.bytes.limit == old(d.bytes.limit)
 //@   ensures [framepos] framepos(d) == old(framepos(d))
 //@   ensures [monotone] pos(d.r) >= old(pos(d.r))
-//@   requires [content] {C02 C04 C12 C13} inv_content(d)
+//@   requires [content] {C02 C04 C06 C12 C13} inv_content(d)
 //@   requires [crc] {C04} inv_crc(d)
-//@   ensures [content] {C02 C04 C12 C13} inv_content(d)
+//@   ensures [content] {C02 C04 C06 C12 C13} inv_content(d)
 //@   ensures [crc] {C04} inv_crc(d)
 //@   assigns d.bytes.i, d.bytes.j, d.bytes.n, d.bytes.buf[..], pos(d.r), dyncrc16.GhostSum(d.crc)
 //@   loop 0 invariant [inv] inv_bytes(d) && inv_io(d) && d.bytes.n == old(d.bytes.n) && d.bytes.limit == old(d.bytes.limit) && framepos(d) == old(framepos(d)) && pos(d.r) >= old(pos(d.r))
-//@   loop 0 invariant [content] {C02 C04 C12 C13} inv_content(d)
+//@   loop 0 invariant [content] {C02 C04 C06 C12 C13} inv_content(d)
 //@   loop 0 invariant [crc] {C04} inv_crc(d)
 //@   loop 0 decreases ite(d.bytes.i == d.bytes.j, 1, 0)
 
@@ -306,14 +306,14 @@ package fit
 //@   ensures [limit] d.bytes.limit == old(d.bytes.limit)
 //@   ensures [framepos] framepos(d) == old(framepos(d))
 //@   ensures [monotone] pos(d.r) >= old(pos(d.r))
-//@   requires [content] {C02 C04 C12 C13} inv_content(d) && !samebase(p, d.bytes.buf[:])
+//@   requires [content] {C02 C04 C06 C12 C13} inv_content(d) && !samebase(p, d.bytes.buf[:])
 //@   requires [crc] {C04} inv_crc(d)
-//@   ensures [content] {C02 C04 C12 C13} inv_content(d)
+//@   ensures [content] {C02 C04 C06 C12 C13} inv_content(d)
 //@   ensures [crc] {C04} inv_crc(d)
-//@   ensures [bytes] {C02 C04 C12 C13} err == nil ==> forall k in 0..old(len(p)) :: old(p)[k] == instream(d.r, framepos(d)+old(d.bytes.n)+k)
-//@   loop 0 invariant [content] {C02 C04 C12 C13} inv_content(d)
+//@   ensures [bytes] {C02 C04 C06 C12 C13} err == nil ==> forall k in 0..old(len(p)) :: old(p)[k] == instream(d.r, framepos(d)+old(d.bytes.n)+k)
+//@   loop 0 invariant [content] {C02 C04 C06 C12 C13} inv_content(d)
 //@   loop 0 invariant [crc] {C04} inv_crc(d)
-//@   loop 0 invariant [copied] {C02 C04 C12 C13} forall k in 0..old(len(p))-len(p) :: old(p)[k] == instream(d.r, framepos(d)+old(d.bytes.n)+k)
+//@   loop 0 invariant [copied] {C02 C04 C06 C12 C13} forall k in 0..old(len(p))-len(p) :: old(p)[k] == instream(d.r, framepos(d)+old(d.bytes.n)+k)
 //@   assigns d.bytes.i, d.bytes.j, d.bytes.n, d.bytes.buf[..], p[..], pos(d.r), dyncrc16.GhostSum(d.crc)
 //@   loop 0 invariant [inv] inv_bytes(d) && inv_io(d) && d.bytes.limit == old(d.bytes.limit) && framepos(d) == old(framepos(d)) && pos(d.r) >= old(pos(d.r))
 //@   loop 0 invariant [count] 0 <= len(p) && len(p) <= old(len(p)) && d.bytes.n == old(d.bytes.n)+(old(len(p))-len(p))
@@ -757,15 +757,15 @@ package fit
 //@   slow inv 90
 //@   slow wf 90
 //@   slow content 90
-//@   requires [content] {C02 C04 C12 C13} inv_content(d)
+//@   requires [content] {C02 C04 C06 C12 C13} inv_content(d)
 //@   requires [crc] {C04} inv_crc(d)
-//@   ensures [content] {C02 C04 C12 C13} inv_content(d)
+//@   ensures [content] {C02 C04 C06 C12 C13} inv_content(d)
 //@   ensures [crc] {C04} inv_crc(d)
 //@   requires [header] {C13} d.bytes.n >= 1 && recordHeader == lastByte(d)
 //@   gassign {C13} lastDef(d, int(recordHeader&0x0F)) := res when err == nil
-//@   loop 0 invariant [content] {C02 C04 C12 C13} inv_content(d)
+//@   loop 0 invariant [content] {C02 C04 C06 C12 C13} inv_content(d)
 //@   loop 0 invariant [crc] {C04} inv_crc(d)
-//@   loop 1 invariant [content] {C02 C04 C12 C13} inv_content(d)
+//@   loop 1 invariant [content] {C02 C04 C06 C12 C13} inv_content(d)
 //@   loop 1 invariant [crc] {C04} inv_crc(d)
 //@   props C01 C10 C11 C13
 //@   slow framepos 90
@@ -871,20 +871,20 @@ package fit
 //@   props C01
 //@@ C02: a scalar native field receives exactly the value of its bytes (the struct field is at least as wide
 //@@ as the base type whenever the definition agrees with the profile, C15)
-//@   ensures [u8] {C02} (dfield.btype == types.BaseByte || dfield.btype == types.BaseEnum || dfield.btype == types.BaseUint8 || dfield.btype == types.BaseUint8z) && rvwid(fieldv) >= 8 ==> err == nil && rvint(fieldv) == int(d.tmp[0])
-//@   ensures [s8] {C02} dfield.btype == types.BaseSint8 && rvwid(fieldv) >= 8 ==> err == nil && rvint(fieldv) == int(int8(d.tmp[0]))
-//@   ensures [s16] {C02} dfield.btype == types.BaseSint16 && rvwid(fieldv) >= 16 ==> err == nil && rvint(fieldv) == int(int16(tmpU16(d, dm)))
-//@   ensures [u16] {C02} (dfield.btype == types.BaseUint16 || dfield.btype == types.BaseUint16z) && rvwid(fieldv) >= 16 ==> err == nil && rvint(fieldv) == int(tmpU16(d, dm))
-//@   ensures [s32] {C02} dfield.btype == types.BaseSint32 && rvwid(fieldv) >= 32 ==> err == nil && rvint(fieldv) == int(int32(tmpU32(d, dm)))
-//@   ensures [u32] {C02} (dfield.btype == types.BaseUint32 || dfield.btype == types.BaseUint32z) && rvwid(fieldv) >= 32 ==> err == nil && rvint(fieldv) == int(tmpU32(d, dm))
-//@   ensures [f32] {C02} dfield.btype == types.BaseFloat32 && rvwid(fieldv) >= 32 ==> err == nil && (rvflt(fieldv) == float64(f32bits(tmpU32(d, dm))) || isNaN(float64(f32bits(tmpU32(d, dm)))))
-//@   ensures [f64] {C02} dfield.btype == types.BaseFloat64 && rvwid(fieldv) == 64 ==> err == nil && (rvflt(fieldv) == f64bits(tmpU64(d, dm)) || isNaN(f64bits(tmpU64(d, dm))))
-//@   ensures [tmp-kept] {C02} forall k in 0..255 :: d.tmp[k] == old(d.tmp[k])
+//@   ensures [u8] {C02 C06} (dfield.btype == types.BaseByte || dfield.btype == types.BaseEnum || dfield.btype == types.BaseUint8 || dfield.btype == types.BaseUint8z) && rvwid(fieldv) >= 8 ==> err == nil && rvint(fieldv) == int(d.tmp[0])
+//@   ensures [s8] {C02 C06} dfield.btype == types.BaseSint8 && rvwid(fieldv) >= 8 ==> err == nil && rvint(fieldv) == int(int8(d.tmp[0]))
+//@   ensures [s16] {C02 C06} dfield.btype == types.BaseSint16 && rvwid(fieldv) >= 16 ==> err == nil && rvint(fieldv) == int(int16(tmpU16(d, dm)))
+//@   ensures [u16] {C02 C06} (dfield.btype == types.BaseUint16 || dfield.btype == types.BaseUint16z) && rvwid(fieldv) >= 16 ==> err == nil && rvint(fieldv) == int(tmpU16(d, dm))
+//@   ensures [s32] {C02 C06} dfield.btype == types.BaseSint32 && rvwid(fieldv) >= 32 ==> err == nil && rvint(fieldv) == int(int32(tmpU32(d, dm)))
+//@   ensures [u32] {C02 C06} (dfield.btype == types.BaseUint32 || dfield.btype == types.BaseUint32z) && rvwid(fieldv) >= 32 ==> err == nil && rvint(fieldv) == int(tmpU32(d, dm))
+//@   ensures [f32] {C02 C06} dfield.btype == types.BaseFloat32 && rvwid(fieldv) >= 32 ==> err == nil && (rvflt(fieldv) == float64(f32bits(tmpU32(d, dm))) || isNaN(float64(f32bits(tmpU32(d, dm)))))
+//@   ensures [f64] {C02 C06} dfield.btype == types.BaseFloat64 && rvwid(fieldv) == 64 ==> err == nil && (rvflt(fieldv) == f64bits(tmpU64(d, dm)) || isNaN(f64bits(tmpU64(d, dm))))
+//@   ensures [tmp-kept] {C02 C06} forall k in 0..255 :: d.tmp[k] == old(d.tmp[k])
 //@@ strings: the bytes up to the first NUL (or the whole field); an empty string leaves the field as it is
-//@   ensures [str] {C02} dfield.btype == types.BaseString && dfield.size > 0 && d.tmp[0] != 0 ==> err == nil && 0 < len(rvstr(fieldv)) && len(rvstr(fieldv)) <= int(dfield.size) &&
+//@   ensures [str] {C02 C06} dfield.btype == types.BaseString && dfield.size > 0 && d.tmp[0] != 0 ==> err == nil && 0 < len(rvstr(fieldv)) && len(rvstr(fieldv)) <= int(dfield.size) &&
 //@  |   (forall k in 0..len(rvstr(fieldv)) :: d.tmp[k] != 0 && rvstr(fieldv)[k] == d.tmp[k]) && (len(rvstr(fieldv)) == int(dfield.size) || d.tmp[len(rvstr(fieldv))] == 0)
-//@   ensures [str-empty] {C02} dfield.btype == types.BaseString && (dfield.size == 0 || d.tmp[0] == 0) ==> err == nil && rvstr(fieldv) == old(rvstr(fieldv))
-//@   loop 0 invariant [nonul] {C02} forall k in 0..j :: d.tmp[k] != 0
+//@   ensures [str-empty] {C02 C06} dfield.btype == types.BaseString && (dfield.size == 0 || d.tmp[0] == 0) ==> err == nil && rvstr(fieldv) == old(rvstr(fieldv))
+//@   loop 0 invariant [nonul] {C02 C06} forall k in 0..j :: d.tmp[k] != 0
 //@   ensures [other-cells] {C12} forall c int :: c != rvcell(fieldv) ==> rvtimeat(fieldv, c) == old(rvtimeat(fieldv, c))
 //@   ensures [not-clean-eof] !iserr(err, errReadSize)
 //@   locals j int
@@ -905,12 +905,12 @@ package fit
 //@   props C01
 //@@ a byte-array field owns its bytes (the decoder's scratch buffer is overwritten by the next field)
 //@   callsite SetBytes [own-copy] {C02 C06} fresh(byteArray) && len(byteArray) == int(dfield.size) && (forall k in 0..len(byteArray) :: byteArray[k] == d.tmp[k])
-//@   callsite SetInt [elem-s16] {C02} j == 2*k && i16 == int64(tmp16at(d, dm, j))
-//@   callsite SetUint [elem-u16] {C02} j == 2*k && ui16 == uint64(tmp16at(d, dm, j))
-//@   callsite SetInt [elem-s32] {C02} j == 4*k && i32 == int64(tmp32at(d, dm, j))
-//@   callsite SetUint [elem-u32] {C02} j == 4*k && ui32 == uint64(tmp32at(d, dm, j))
-//@   callsite SetFloat [elem-f32] {C02} j == 4*k && (f32 == float64(f32bits(tmp32at(d, dm, j))) || isNaN(f32))
-//@   callsite SetFloat [elem-f64] {C02} j == 8*k && (f64 == f64bits(tmp64at(d, dm, j)) || isNaN(f64))
+//@   callsite SetInt [elem-s16] {C02 C06} j == 2*k && i16 == int64(tmp16at(d, dm, j))
+//@   callsite SetUint [elem-u16] {C02 C06} j == 2*k && ui16 == uint64(tmp16at(d, dm, j))
+//@   callsite SetInt [elem-s32] {C02 C06} j == 4*k && i32 == int64(tmp32at(d, dm, j))
+//@   callsite SetUint [elem-u32] {C02 C06} j == 4*k && ui32 == uint64(tmp32at(d, dm, j))
+//@   callsite SetFloat [elem-f32] {C02 C06} j == 4*k && (f32 == float64(f32bits(tmp32at(d, dm, j))) || isNaN(f32))
+//@   callsite SetFloat [elem-f64] {C02 C06} j == 8*k && (f64 == f64bits(tmp64at(d, dm, j)) || isNaN(f64))
 //@   ensures [other-cells] {C12} forall c int :: c != rvcell(fieldv) ==> rvtimeat(fieldv, c) == old(rvtimeat(fieldv, c))
 //@   ensures [not-clean-eof] !iserr(err, errReadSize)
 //@   requires archOK(dm) && rvmt(fieldv) < 0xFFF0 && types.KnownIdx(dfield.btype)
@@ -999,38 +999,38 @@ package fit
 //@   loop 0 invariant [unk-fields-others] {C16} forall mm MesgNum :: (forall n byte :: (mm != dm.globalMsgNum ==> d.unknownFields[unknownField{mm, n}] == old(d.unknownFields[unknownField{mm, n}])))
 //@   slow record-length 90
 //@   slow content 90
-//@   ensures [record-length] {C02 C13} err == nil ==> d.bytes.n == old(d.bytes.n)+fsum(dm.fieldDefs, len(dm.fieldDefs))+dsum(dm.devDataFieldDescs, len(dm.devDataFieldDescs))
-//@   loop 0 invariant [record-length] {C02 C13} d.bytes.n == old(d.bytes.n)+fsum(dm.fieldDefs, rangeindex+1)
-//@   loop 4 invariant [record-length] {C02 C13} d.bytes.n == old(d.bytes.n)+fsum(dm.fieldDefs, len(dm.fieldDefs))+dsum(dm.devDataFieldDescs, rangeindex+1)
+//@   ensures [record-length] {C02 C06 C13} err == nil ==> d.bytes.n == old(d.bytes.n)+fsum(dm.fieldDefs, len(dm.fieldDefs))+dsum(dm.devDataFieldDescs, len(dm.devDataFieldDescs))
+//@   loop 0 invariant [record-length] {C02 C06 C13} d.bytes.n == old(d.bytes.n)+fsum(dm.fieldDefs, rangeindex+1)
+//@   loop 4 invariant [record-length] {C02 C06 C13} d.bytes.n == old(d.bytes.n)+fsum(dm.fieldDefs, len(dm.fieldDefs))+dsum(dm.devDataFieldDescs, rangeindex+1)
 //@   slow wire 90
 //@   slow wire1 90
 //@   slow wire2 90
 //@   slow wire3 90
 //@   slow wire4 90
 //@@ C02: the fixed 4-byte kinds (time, coordinates) are decoded from the value their wire bytes denote
-//@   callsite parseTimeStamp [size] {C02} 1 <= dsize && dsize <= 4
-//@   callsite parseTimeStamp [wire1] {C02} dsize == 1 ==> tmpU32(d, dm) == wireVal(d, dm, 1, dfield.btype.Signed())
-//@   callsite parseTimeStamp [wire2] {C02} dsize == 2 ==> tmpU32(d, dm) == wireVal(d, dm, 2, dfield.btype.Signed())
-//@   callsite parseTimeStamp [wire3] {C02} dsize == 3 ==> tmpU32(d, dm) == wireVal(d, dm, 3, dfield.btype.Signed())
-//@   callsite parseTimeStamp [wire4] {C02} dsize == 4 ==> tmpU32(d, dm) == wireVal(d, dm, 4, dfield.btype.Signed())
-//@   callsite NewLatitude [size] {C02} 1 <= dsize && dsize <= 4
-//@   callsite NewLatitude [wire1] {C02} dsize == 1 ==> tmpU32(d, dm) == wireVal(d, dm, 1, dfield.btype.Signed())
-//@   callsite NewLatitude [wire2] {C02} dsize == 2 ==> tmpU32(d, dm) == wireVal(d, dm, 2, dfield.btype.Signed())
-//@   callsite NewLatitude [wire3] {C02} dsize == 3 ==> tmpU32(d, dm) == wireVal(d, dm, 3, dfield.btype.Signed())
-//@   callsite NewLatitude [wire4] {C02} dsize == 4 ==> tmpU32(d, dm) == wireVal(d, dm, 4, dfield.btype.Signed())
-//@   callsite NewLongitude [size] {C02} 1 <= dsize && dsize <= 4
-//@   callsite NewLongitude [wire1] {C02} dsize == 1 ==> tmpU32(d, dm) == wireVal(d, dm, 1, dfield.btype.Signed())
-//@   callsite NewLongitude [wire2] {C02} dsize == 2 ==> tmpU32(d, dm) == wireVal(d, dm, 2, dfield.btype.Signed())
-//@   callsite NewLongitude [wire3] {C02} dsize == 3 ==> tmpU32(d, dm) == wireVal(d, dm, 3, dfield.btype.Signed())
-//@   callsite NewLongitude [wire4] {C02} dsize == 4 ==> tmpU32(d, dm) == wireVal(d, dm, 4, dfield.btype.Signed())
-//@   callsite parseFitField [wire] {C02} dsize == int(dfield.size) && (forall k in 0..dsize :: d.tmp[k] == wb(d, dsize, k))
-//@   callsite parseFitFieldArray [wire] {C02} dsize == int(dfield.size) && (forall k in 0..dsize :: d.tmp[k] == wb(d, dsize, k))
-//@   loop 1 invariant [wire] {C02} dsize <= j && j <= 4 && w1(d, dsize, 0, j, pad) && w1(d, dsize, 1, j, pad) && w1(d, dsize, 2, j, pad) && w1(d, dsize, 3, j, pad)
-//@   loop 2 invariant [wire] {C02} dsize+padding == 4 && -1 <= j && j < dsize && w2(d, dsize, padding, 0, j) && w2(d, dsize, padding, 1, j) && w2(d, dsize, padding, 2, j) && w2(d, dsize, padding, 3, j)
-//@   loop 3 invariant [wire] {C02} dsize+padding == 4 && w3(d, dsize, padding, 0, j, pad) && w3(d, dsize, padding, 1, j, pad) && w3(d, dsize, padding, 2, j, pad) && w3(d, dsize, padding, 3, j, pad)
-//@   requires [content] {C02 C04 C12 C13} inv_content(d)
+//@   callsite parseTimeStamp [size] {C02 C06} 1 <= dsize && dsize <= 4
+//@   callsite parseTimeStamp [wire1] {C02 C06} dsize == 1 ==> tmpU32(d, dm) == wireVal(d, dm, 1, dfield.btype.Signed())
+//@   callsite parseTimeStamp [wire2] {C02 C06} dsize == 2 ==> tmpU32(d, dm) == wireVal(d, dm, 2, dfield.btype.Signed())
+//@   callsite parseTimeStamp [wire3] {C02 C06} dsize == 3 ==> tmpU32(d, dm) == wireVal(d, dm, 3, dfield.btype.Signed())
+//@   callsite parseTimeStamp [wire4] {C02 C06} dsize == 4 ==> tmpU32(d, dm) == wireVal(d, dm, 4, dfield.btype.Signed())
+//@   callsite NewLatitude [size] {C02 C06} 1 <= dsize && dsize <= 4
+//@   callsite NewLatitude [wire1] {C02 C06} dsize == 1 ==> tmpU32(d, dm) == wireVal(d, dm, 1, dfield.btype.Signed())
+//@   callsite NewLatitude [wire2] {C02 C06} dsize == 2 ==> tmpU32(d, dm) == wireVal(d, dm, 2, dfield.btype.Signed())
+//@   callsite NewLatitude [wire3] {C02 C06} dsize == 3 ==> tmpU32(d, dm) == wireVal(d, dm, 3, dfield.btype.Signed())
+//@   callsite NewLatitude [wire4] {C02 C06} dsize == 4 ==> tmpU32(d, dm) == wireVal(d, dm, 4, dfield.btype.Signed())
+//@   callsite NewLongitude [size] {C02 C06} 1 <= dsize && dsize <= 4
+//@   callsite NewLongitude [wire1] {C02 C06} dsize == 1 ==> tmpU32(d, dm) == wireVal(d, dm, 1, dfield.btype.Signed())
+//@   callsite NewLongitude [wire2] {C02 C06} dsize == 2 ==> tmpU32(d, dm) == wireVal(d, dm, 2, dfield.btype.Signed())
+//@   callsite NewLongitude [wire3] {C02 C06} dsize == 3 ==> tmpU32(d, dm) == wireVal(d, dm, 3, dfield.btype.Signed())
+//@   callsite NewLongitude [wire4] {C02 C06} dsize == 4 ==> tmpU32(d, dm) == wireVal(d, dm, 4, dfield.btype.Signed())
+//@   callsite parseFitField [wire] {C02 C06} dsize == int(dfield.size) && (forall k in 0..dsize :: d.tmp[k] == wb(d, dsize, k))
+//@   callsite parseFitFieldArray [wire] {C02 C06} dsize == int(dfield.size) && (forall k in 0..dsize :: d.tmp[k] == wb(d, dsize, k))
+//@   loop 1 invariant [wire] {C02 C06} dsize <= j && j <= 4 && w1(d, dsize, 0, j, pad) && w1(d, dsize, 1, j, pad) && w1(d, dsize, 2, j, pad) && w1(d, dsize, 3, j, pad)
+//@   loop 2 invariant [wire] {C02 C06} dsize+padding == 4 && -1 <= j && j < dsize && w2(d, dsize, padding, 0, j) && w2(d, dsize, padding, 1, j) && w2(d, dsize, padding, 2, j) && w2(d, dsize, padding, 3, j)
+//@   loop 3 invariant [wire] {C02 C06} dsize+padding == 4 && w3(d, dsize, padding, 0, j, pad) && w3(d, dsize, padding, 1, j, pad) && w3(d, dsize, padding, 2, j, pad) && w3(d, dsize, padding, 3, j, pad)
+//@   requires [content] {C02 C04 C06 C12 C13} inv_content(d)
 //@   requires [crc] {C04} inv_crc(d)
-//@   ensures [content] {C02 C04 C12 C13} inv_content(d)
+//@   ensures [content] {C02 C04 C06 C12 C13} inv_content(d)
 //@   ensures [crc] {C04} inv_crc(d)
 //@   requires [def-of-record] {C13} d.bytes.n >= 1 && dm == lastDef(d, int(recSlot(lastByte(d))))
 //@   use {C12} field_nums(dm.globalMsgNum)
@@ -1039,9 +1039,9 @@ package fit
 //@   ensures [ts-cell-kept] {C12} no253(dm) && knownMsg && pfound(dm.globalMsgNum, 253) ==> rvtimeat(msgv, pf(dm.globalMsgNum, 253).sindex) == old(rvtimeat(msgv, pf(dm.globalMsgNum, 253).sindex))
 //@   loop 0 invariant [ts-kept] {C12} (forall k in 0..rangeindex+1 :: dm.fieldDefs[k].num != 253) ==> d.timestamp == old(d.timestamp) && d.lastTimeOffset == old(d.lastTimeOffset)
 //@   loop 0 invariant [ts-cell-kept] {C12} (forall k in 0..rangeindex+1 :: dm.fieldDefs[k].num != 253) && knownMsg && pfound(dm.globalMsgNum, 253) ==> rvtimeat(msgv, pf(dm.globalMsgNum, 253).sindex) == old(rvtimeat(msgv, pf(dm.globalMsgNum, 253).sindex))
-//@   loop 0 invariant [content] {C02 C04 C12 C13} inv_content(d)
+//@   loop 0 invariant [content] {C02 C04 C06 C12 C13} inv_content(d)
 //@   loop 0 invariant [crc] {C04} inv_crc(d)
-//@   loop 4 invariant [content] {C02 C04 C12 C13} inv_content(d)
+//@   loop 4 invariant [content] {C02 C04 C06 C12 C13} inv_content(d)
 //@   loop 4 invariant [crc] {C04} inv_crc(d)
 //@   props C01 C10 C11
 //@   ensures [not-clean-eof] !iserr(err, errReadSize)
@@ -1075,9 +1075,9 @@ package fit
 //@ spec pure slotOf(recordHeader byte, compressed bool) byte := ite(compressed, (recordHeader&0x60)>>5, recordHeader&0x0F)
 
 //@ func (d *decoder) parseDataMessage(recordHeader byte, compressed bool) (r reflect.Value, err error)
-//@   requires [content] {C02 C04 C12 C13} inv_content(d)
+//@   requires [content] {C02 C04 C06 C12 C13} inv_content(d)
 //@   requires [crc] {C04} inv_crc(d)
-//@   ensures [content] {C02 C04 C12 C13} inv_content(d)
+//@   ensures [content] {C02 C04 C06 C12 C13} inv_content(d)
 //@   ensures [crc] {C04} inv_crc(d)
 //@   requires [header] {C13} d.bytes.n >= 1 && recordHeader == lastByte(d) && compressed == (recordHeader&0x80 == 0x80)
 //@   requires [latest] {C13} defs_latest(d)
@@ -1090,7 +1090,7 @@ package fit
 //@  |   d.unknownMessages[m] == old(d.unknownMessages[m])
 //@@ C02: every record is decoded into a message of its own, created all-invalid for this record (fields that the
 //@@ record does not carry therefore hold their invalid values: constructors checked by the C15 table obligations)
-//@   ensures [fresh-msg] {C02} err == nil && rvvalid(r) ==> fresh(r)
+//@   ensures [fresh-msg] {C02 C06} err == nil && rvvalid(r) ==> fresh(r)
 //@   ensures [compressed-state] {C12} compressed && old(d.timestamp) != 0 && old(d.defmsgs[slotOf(recordHeader, compressed)]) != nil && no253(old(d.defmsgs[slotOf(recordHeader, compressed)])) ==>
 //@  |   d.timestamp == advance(old(d.timestamp), old(d.lastTimeOffset), recordHeader) && d.lastTimeOffset == int32(recordHeader&0x1F)
 //@   ensures [compressed-noref] {C12} compressed && old(d.timestamp) == 0 && old(d.defmsgs[slotOf(recordHeader, compressed)]) != nil && no253(old(d.defmsgs[slotOf(recordHeader, compressed)])) ==>
@@ -1315,9 +1315,9 @@ package fit
 //@ func (d *decoder) parseFileIdMsg() (err error)
 //@   ensures [added] {C03 C11} err == nil ==> nadded(d.file)-old(nadded(d.file)) == nvalid(d)-old(nvalid(d))
 //@   assigns {C03 C11} nadded(d.file), nvalid(d)
-//@   requires [content] {C02 C04 C12 C13} inv_content(d)
+//@   requires [content] {C02 C04 C06 C12 C13} inv_content(d)
 //@   requires [crc] {C04} inv_crc(d)
-//@   ensures [content] {C02 C04 C12 C13} inv_content(d)
+//@   ensures [content] {C02 C04 C06 C12 C13} inv_content(d)
 //@   ensures [crc] {C04} inv_crc(d)
 //@   requires [latest] {C13} defs_latest(d)
 //@   ensures [latest] {C13} err == nil ==> defs_latest(d)
@@ -1341,14 +1341,14 @@ package fit
 //@   assigns {C03 C11} nadded(d.file), nvalid(d)
 //@   loop 0 invariant [added] {C03 C11} nadded(d.file)-old(nadded(d.file)) == nvalid(d)-old(nvalid(d))
 //@   loop 0 dispatches {C03} parseDataMessage parseDefinitionMessage
-//@   requires [content] {C02 C04 C12 C13} inv_content(d)
+//@   requires [content] {C02 C04 C06 C12 C13} inv_content(d)
 //@   requires [crc] {C04} inv_crc(d)
-//@   ensures [content] {C02 C04 C12 C13} inv_content(d)
+//@   ensures [content] {C02 C04 C06 C12 C13} inv_content(d)
 //@   ensures [crc] {C04} inv_crc(d)
 //@   requires [latest] {C13} defs_latest(d)
 //@   ensures [latest] {C13} err == nil ==> defs_latest(d)
 //@   assigns {C13} lastDef(d, *)
-//@   loop 0 invariant [content] {C02 C04 C12 C13} inv_content(d)
+//@   loop 0 invariant [content] {C02 C04 C06 C12 C13} inv_content(d)
 //@   loop 0 invariant [crc] {C04} inv_crc(d)
 //@   loop 0 invariant [latest] {C13} defs_latest(d)
 //@   props C01 C10 C11 C13
@@ -1383,16 +1383,20 @@ package fit
 //@   assigns d.tmp[..], pos(d.r), dyncrc16.GhostSum(d.crc), d.file.CRC
 
 //@@ assumed for now (range over a map, sort.Sort): export of the unknown-item counters
+//@ ghost func fexported(d *decoder) int
+//@ ghost func mexported(d *decoder) int
 //@ func (d *decoder) handleUnknownFields()
 //@   props C01 C16
 //@   trusted
 //@   requires file_inv(d)
+//@   gassign {C16} fexported(d) := 1
 //@   assigns d.file.UnknownFields
 
 //@ func (d *decoder) handleUnknownMessages()
 //@   props C01 C16
 //@   trusted
 //@   requires file_inv(d)
+//@   gassign {C16} mexported(d) := 1
 //@   assigns d.file.UnknownMessages
 
 //@ lemma frame_exact(pos int, p0 int, n int, i int, j int, size byte, dsize uint32)
@@ -1409,7 +1413,7 @@ package fit
 //@ pred fresh_decoder(d *decoder) := !d.debug && d.bytes.i == 0 && d.bytes.j == 0 && d.bytes.n == 0 && d.timestamp == 0 && d.lastTimeOffset == 0 && d.file == nil && d.unknownFields == nil && d.unknownMessages == nil && (forall s in 0..16 :: d.defmsgs[s] == nil)
 
 //@ func (d *decoder) decode(r io.Reader, headerOnly bool, fileIDOnly bool, crcOnly bool) (err error)
-//@   props C01 C10 C11
+//@   props C01 C10 C11 C16
 //@   slow bounded-crconly 90
 //@   slow bounded-frame 90
 //@   slow exact-frame 90
@@ -1441,6 +1445,10 @@ package fit
 //@@ C13: a file starts with no definitions, whatever was decoded before with whatever decoder
 //@   requires [no-definitions] {C13} forall s in 0..16 :: d.defmsgs[s] == nil
 //@   assigns {C03 C11} nvalid(d)
+//@@ C16: once the counters exist they are exported on every way out of decode, also when decoding fails part-way
+//@   ensures [fields-exported] {C16} d.unknownFields != nil ==> fexported(d) == 1
+//@   ensures [messages-exported] {C16} d.unknownMessages != nil ==> mexported(d) == 1
+//@   assigns {C16} fexported(d), mexported(d)
 
 //@ func CheckIntegrity(r io.Reader, headerOnly bool) (err error)
 //@   props C01 C10 C11
@@ -1512,3 +1520,15 @@ package fit
 //@   props C08 C16
 //@   hyp (m1 < m2 || (m1 == m2 && f1 < f2)) && (m2 < m3 || (m2 == m3 && f2 < f3))
 //@   concl m1 < m3 || (m1 == m3 && f1 < f3)
+
+//@@ C17: a coordinate constructed from degrees inside the legal range lies within one semicircle of degrees x 2^31/180
+//@ func NewLatitudeDegrees(degrees float64) (r Latitude)
+//@   props C17
+//@   ensures [out-of-range] degrees >= 90 || degrees <= -90 ==> r.semicircles == 0x7FFFFFFF
+//@   ensures [near] degrees > -90 && degrees < 90 ==> float64(r.semicircles) <= degrees*degToSemiFactor+1 && float64(r.semicircles) >= degrees*degToSemiFactor-1
+//@   assigns nothing
+//@ func NewLongitudeDegrees(degrees float64) (r Longitude)
+//@   props C17
+//@   ensures [out-of-range] degrees >= 180 || degrees <= -180 ==> r.semicircles == 0x7FFFFFFF
+//@   ensures [near] degrees > -180 && degrees < 180 ==> float64(r.semicircles) <= degrees*degToSemiFactor+1 && float64(r.semicircles) >= degrees*degToSemiFactor-1
+//@   assigns nothing
